@@ -298,6 +298,12 @@ fn grid_polygon(rng: &mut Rng) -> Polygon {
     if rng.chance(1, 4) {
         pts.reverse();
     }
+    // one outline in three has its first edge split by an extra corner in the middle (exact on the quarter-metre grid):
+    // its first three corners lie on one line
+    if rng.chance(1, 3) {
+        let mid = point![(pts[0].x + pts[1].x) * 0.5, (pts[0].y + pts[1].y) * 0.5];
+        pts.insert(1, mid);
+    }
     pts
 }
 
